@@ -27,7 +27,7 @@ ASSUMPTIONS = [
 ]
 FLOORS = {'extractions': 300, 'focus_evaluations': 1000, 'depth2_focus': 50,
           'range_focus': 30, 'name_focus': 10, 'after_evaluation': 50,
-          'with_changes': 100}
+          'with_changes': 100, 'changes_by_name': 5}
 ANCHOR_FUNCS = {'xlcalculator/model.py': ['ModelCompiler.extract']}
 TIMEOUT = {'quick': 600, 'thorough': 3000}
 
@@ -59,7 +59,7 @@ def run(ctx):
         names = {}
         use_names = rng.random() < 0.35
         if use_names:
-            k = rng.choice(m.order)
+            k = rng.choice(m.inputs if rng.random() < 0.7 else m.order)
             names['NmCell'] = ('ref', k[0], k[1], k[2], True, True)
             s0 = sheets[0]
             rows = max(r for (s, c, r) in m.inputs if s == s0)
@@ -90,6 +90,25 @@ def run(ctx):
                 m.depth[key2] = 1 + max([m.depth.get(d, 0)
                                          for d in m.deps[key2]] or [0])
             m.names = names
+        # two direct range references with the SAME coordinates on different
+        # sheets, and formula cells inside one of them
+        if len(sheets) == 2:
+            s0_, s1_ = sheets
+            rows0 = max([r for (s_, c, r) in m.inputs if s_ == s0_] or [0])
+            rows1 = max([r for (s_, c, r) in m.inputs if s_ == s1_] or [0])
+            top = min(rows0, rows1)
+            if top >= 1:
+                key3 = (s0_, 7, 1)
+                rg0 = ('rng', s0_, 1, 1, 2, top, gen.FALSE4)
+                rg1 = ('rng', s1_, 1, 1, 2, top, gen.FALSE4)
+                m.cells[key3] = ('f', ('bin', '+', ('call', 'SUM', [rg0]),
+                                       ('call', 'SUM', [rg1])))
+                m.order.append(key3)
+                m.formulas.append(key3)
+                m.deps[key3] = {(s_, c, r) for s_ in sheets for c in (1, 2)
+                                for r in range(1, top + 1)
+                                if (s_, c, r) in m.cells}
+                m.depth[key3] = 1
         wb = m.workbook()
         try:
             for k in m.order:
@@ -200,6 +219,11 @@ def run(ctx):
                 if inputs_in:
                     changes.append((rng.choice(inputs_in),
                                     rng.choice([0, 1, 2, 3, -1, 0.5, 10])))
+            if use_names and names.get('NmCell') and rng.random() < 0.6:
+                t = names['NmCell']
+                if (t[1], t[2], t[3]) in inputs_in:
+                    changes.append(((t[1], t[2], t[3]),
+                                    rng.choice([4, 6, 8, 12])))
             if changes:
                 ctx.event('with_changes')
             ev_x = Evaluator(extracted)
@@ -208,8 +232,17 @@ def run(ctx):
             bad = False
             for ri, chg in enumerate(rounds):
                 for k, v in chg:
-                    ev_o.set_cell_value(build.addr(k), v)
-                    ev_x.set_cell_value(build.addr(k), v)
+                    target = build.addr(k)
+                    # through a defined name when the extracted model knows
+                    # one for this input
+                    for nm, t in names.items():
+                        if t[0] == 'ref' and (t[1], t[2], t[3]) == k and \
+                                nm in extracted.defined_names and \
+                                rng.random() < 0.7:
+                            target = nm
+                            ctx.event('changes_by_name')
+                    ev_o.set_cell_value(target, v)
+                    ev_x.set_cell_value(target, v)
                     wbc.cells[k] = v
                 for f, fk in zip(focus_addrs, [None] * len(focus_addrs)):
                     if f in ('NmRange', 'NmForm'):
